@@ -53,8 +53,15 @@ func verifPage(width, height float64) *pages.Page {
 	return pages.NewPage(core.Dict{
 		"Type":     core.Name("Page"),
 		"MediaBox": core.Array{core.Real(0), core.Real(0), core.Real(width), core.Real(height)},
-	}, nil, nil)
+	}, nil, verifResolver{})
 }
+
+// verifResolver resolves direct objects to themselves (verifPage has no references).
+type verifResolver struct{}
+
+func (verifResolver) Resolve(obj core.Object) (core.Object, error) { return obj, nil }
+
+func (verifResolver) ResolveDeep(obj core.Object) (core.Object, error) { return obj, nil }
 
 // VerifAssembleText exposes (*Extractor).assembleText.
 func VerifAssembleText(fragments []text.TextFragment) string {
@@ -74,4 +81,8 @@ func VerifExtractByColumn(fragments []text.TextFragment, width, height float64) 
 // VerifExtractWithParagraphs exposes (*Extractor).extractWithParagraphs on a page of the given size.
 func VerifExtractWithParagraphs(fragments []text.TextFragment, width, height float64) string {
 	return (&Extractor{}).extractWithParagraphs(fragments, verifPage(width, height))
+}
+
+func (verifResolver) ResolveReference(ref core.IndirectRef) (core.Object, error) {
+	return core.Null{}, nil
 }
